@@ -118,6 +118,12 @@ def _full(lg, res, op, k):
         res.sig((op, 8, tup, e))
     bps = [codes_to_bp(o) for o in operands]
     keep_bps = [b.copy() for b in bps]; keep_ops = [o.copy() for o in operands]
+    # the output array may hold anything beforehand (the simulator re-uses slots): every prefill gives the same result
+    for prefill in (0x00, 0xFF, 0x5A):
+        outp = np.full((3, (n + 7) // 8), prefill, dtype=np.uint8)
+        getattr(lg, 'bp8v_' + op)(outp, *bps)
+        _cmp(res, task, f'bp8v_{op}/k{k}/prefill{prefill:02x}', bp_to_codes(outp, n), exp, operands)
+        res.count('bp_prefills')
     out = np.full((3, (n + 7) // 8), 0xA5, dtype=np.uint8)
     r = getattr(lg, 'bp8v_' + op)(out, *bps)
     if any(not np.array_equal(a, b) for a, b in zip(bps, keep_bps)):
@@ -154,6 +160,30 @@ def _full(lg, res, op, k):
     getattr(lg, 'bp4v_' + op)(out4, *[codes_to_bp(o, 2) for o in operands4])
     _cmp(res, task, f'bp4v_{op}/k{k}', bp_to_codes(out4, n4), exp4, operands4)
     res.evals += n4
+    # 4-valued operators on three-plane arrays (what mv_to_bp delivers): the third plane carries no meaning for them,
+    # whatever it holds (e.g. left behind by a previous 4-valued operator) the two value planes of the result are the same
+    for p2 in (0x00, 0xFF, 0xA5, 0x5A):
+        bps4 = [codes_to_bp(o, 3) for o in operands4]
+        for b4 in bps4: b4[..., 2, :] = p2
+        out43 = np.full((3, (n4 + 7) // 8), p2 ^ 0x3C, dtype=np.uint8)
+        getattr(lg, 'bp4v_' + op)(out43, *bps4)
+        _cmp(res, task, f'bp4v_{op}/k{k}/3planes-{p2:02x}', bp_to_codes(out43[..., :2, :], n4), exp4, operands4)
+        res.count('bp4v_three_plane')
+    # chaining: a 4-valued operator applied to the result array of another one (first operand), other operands fresh
+    if k >= 2:
+        for first in ('and', 'or', 'xor', 'not', 'buf'):
+            fk = 1 if first in ('not', 'buf') else 2
+            a3 = [codes_to_bp(o, 3) for o in operands4]
+            mid = np.zeros((3, (n4 + 7) // 8), dtype=np.uint8)
+            getattr(lg, 'bp4v_' + first)(mid, *a3[:fk])
+            mid_codes = bp_to_codes(mid[..., :2, :], n4)
+            mid_exp = ref_apply(first, operands4[:fk])
+            fin = np.zeros((3, (n4 + 7) // 8), dtype=np.uint8)
+            getattr(lg, 'bp4v_' + op)(fin, mid, *a3[1:])
+            # X and - are both 'unknown' for every operator, so the expected chain value is defined modulo that
+            exp_chain = ref_apply(op, [mid_exp] + operands4[1:])
+            _cmp(res, task, f'bp4v_{op}/k{k}/after-{first}', bp_to_codes(fin[..., :2, :], n4), exp_chain, operands4)
+            res.count('bp4v_chained')
     for tup, e in zip(zip(*[o.tolist() for o in operands4]), exp4.tolist()):
         res.sig((op, 4, tup, e))
     # Boolean restriction
